@@ -614,7 +614,7 @@ PROPS["C03"] = {'claimed': True,
  'assumptions': ['histories allowed by the FdlApplication contract (C15); peripherals added before the history starts',
                  'max_retry_limit >= 1 (ParametersBuilder admits 1..15); runs that do not panic (panic freedom is C05)',
                  'bytes 0..255, addresses 0..125'],
- 'partial_gap': 'all planned C03 theorems are proved. Stated as coded: (a) a diagnostics reply with Prm_Req both restarts the bring-up and counts as '
+ 'partial_gap': 'all planned C03 theorems are proved. Peripheral::reset_address (a user call that asks for a new bring-up, possibly at another address) is NOT an operation of the history theorems: histories containing it are covered by the correspondence check (model p_reset_address / dp_reset_address, harness op RA) and the executable monitors DpOracle.c03_monitor_ra / c04_monitor_ra / c08_monitor_ra / c14_monitor_ra only (phase back to NeedDiag, next request FCV=0/FCB=1, life-cycle Off without event); known finding F22 (class DpOracle.known_reset_while_pending): reset_address while that peripheral\'s reply is outstanding. Stated as coded: (a) a diagnostics reply with Prm_Req both restarts the bring-up and counts as '
                 'its answered diagnostics request (DESIGN 4.0); (b) in Ready a diagnostics reply with fault flags but without Prm_Req does not leave '
                 'Ready (the master does not consider the peripheral offline there); (c) with user_parameters / config = None the peripheral idles in '
                 "WaitForParam / WaitForConfig (observation O7); (d) the Data_Exchange PDU itself is C04's subject; (e) the requested watchdog time "
@@ -770,7 +770,7 @@ PROPS["C08"] = {'claimed': True,
  'assumptions': ['histories allowed by the FdlApplication contract (C15); peripherals added before the history starts',
                  'max_retry_limit >= 1 (ParametersBuilder admits 1..15); runs that do not panic (panic freedom is C05)',
                  'bytes 0..255, addresses 0..125'],
- 'partial_gap': 'all planned C08 theorems are proved. Stated as coded: (a) "first request" after F18: besides the first request after start-up / an '
+ 'partial_gap': 'all planned C08 theorems are proved. Peripheral::reset_address (a user call that asks for a new bring-up, possibly at another address) is NOT an operation of the history theorems: histories containing it are covered by the correspondence check (model p_reset_address / dp_reset_address, harness op RA) and the executable monitors DpOracle.c03_monitor_ra / c04_monitor_ra / c08_monitor_ra / c14_monitor_ra only (phase back to NeedDiag, next request FCV=0/FCB=1, life-cycle Off without event); known finding F22 (class DpOracle.known_reset_while_pending): reset_address while that peripheral\'s reply is outstanding. Stated as coded: (a) "first request" after F18: besides the first request after start-up / an '
                 'Offline event, every probe that follows an unanswered probe of a peripheral that is not live carries FCV=0/FCB=1 again; the '
                 'property text allows it as a retransmission (same service and destination, no acceptable reply) and C08_offline_then_probes states '
                 'it; (b) after a parameter / configuration fault (internal offline state without Offline event, DESIGN 4.0) the first probe toggles '
